@@ -139,9 +139,10 @@ pub const F_CLOCK_JUMP: u32 = 1 << 8;
 pub const F_THREAD_STALL: u32 = 1 << 9;
 pub const F_BITFLIP_READ: u32 = 1 << 10; // hard: one stored bit reads back flipped (only on `trunc_paths`: checksummed streams)
 pub const F_EOPEN: u32 = 1 << 11; // hard: open() fails (EMFILE / EACCES / EIO / ENOMEM)
-pub const F_HARD: u32 = F_EIO_WRITE | F_ENOSPC_WRITE | F_EIO_READ | F_TRUNC_READ | F_BITFLIP_READ | F_EOPEN;
+pub const F_ZERO_WRITE: u32 = 1 << 12; // hard: write() accepts nothing (returns 0), once or from then on
+pub const F_HARD: u32 = F_EIO_WRITE | F_ENOSPC_WRITE | F_EIO_READ | F_TRUNC_READ | F_BITFLIP_READ | F_EOPEN | F_ZERO_WRITE;
 
-pub const FAULT_NAMES: [(&str, u32); 12] = [
+pub const FAULT_NAMES: [(&str, u32); 13] = [
     ("short_write", F_SHORT_WRITE),
     ("eintr_write", F_EINTR_WRITE),
     ("short_read", F_SHORT_READ),
@@ -154,6 +155,7 @@ pub const FAULT_NAMES: [(&str, u32); 12] = [
     ("thread_stall", F_THREAD_STALL),
     ("bitflip_read", F_BITFLIP_READ),
     ("eopen", F_EOPEN),
+    ("zero_write", F_ZERO_WRITE),
 ];
 
 #[derive(Clone, Debug, serde::Serialize, serde::Deserialize, PartialEq)]
@@ -209,6 +211,10 @@ pub struct SimCfg {
     /// hard I/O faults are one-shot only (no "the medium stays broken" variants)
     #[serde(default)]
     pub no_sticky_faults: bool,
+    /// files whose path contains one of these behave like a pipe towards stat and seek: the reported size is 0
+    /// and seeking fails with ESPIPE (reading works as usual) - what a FIFO or /dev/stdin gives a program
+    #[serde(default)]
+    pub pipe_like_paths: Vec<String>,
 }
 
 impl Default for SimCfg {
@@ -232,6 +238,7 @@ impl Default for SimCfg {
             max_steps: 3_000_000,
             max_alloc_bytes: 2 << 30,
             no_sticky_faults: false,
+            pipe_like_paths: vec![],
         }
     }
 }
@@ -1609,7 +1616,11 @@ pub fn hook_write(fd: i32, buf: &[u8]) -> Option<Result<usize, i32>> {
     let mut n = buf.len();
     if let Some(errno) = s.broken_write_paths.get(&path).copied() {
         s.ev(me, Pt::Write, idx, u64::MAX - 3);
-        return Some(Err(errno));
+        // (every such write is a scheduling point and a step: a loop that retries forever meets the step budget)
+        if !s.quiet {
+            s.sched_point(me, Pt::Write);
+        }
+        return Some(if errno == 0 { Ok(0) } else { Err(errno) });
     }
     if !s.quiet && n > 0 && path_faultable(s, &path) {
         let mask = s.cfg.faults;
@@ -1633,12 +1644,15 @@ pub fn hook_write(fd: i32, buf: &[u8]) -> Option<Result<usize, i32>> {
             if mask & F_ENOSPC_WRITE != 0 && hard_ok {
                 kinds.push("enospc_write");
             }
+            if mask & F_ZERO_WRITE != 0 && hard_ok {
+                kinds.push("zero_write");
+            }
             if kinds.is_empty() {
                 return None;
             }
             let k = *r.pick(&kinds);
             // hard write faults: 1 = sticky (the disk stays full / the medium stays broken)
-            let arg = if k == "short_write" { if r.chance(0.3) { 1 } else { 1 + r.below(nn - 1) } } else if k == "eio_write" || k == "enospc_write" { r.below(2) } else { 0 };
+            let arg = if k == "short_write" { if r.chance(0.3) { 1 } else { 1 + r.below(nn - 1) } } else if k == "eio_write" || k == "enospc_write" || k == "zero_write" { r.below(2) } else { 0 };
             Some((k, arg))
         });
         if let Some((k, arg)) = f {
@@ -1656,6 +1670,14 @@ pub fn hook_write(fd: i32, buf: &[u8]) -> Option<Result<usize, i32>> {
                     }
                     s.ev(me, Pt::Write, idx, u64::MAX - 1);
                     return Some(Err(libc::EIO));
+                }
+                "zero_write" => {
+                    s.hard_faults += 1;
+                    if arg == 1 {
+                        s.broken_write_paths.insert(path.clone(), 0);
+                    }
+                    s.ev(me, Pt::Write, idx, u64::MAX - 4);
+                    return Some(Ok(0));
                 }
                 "enospc_write" => {
                     s.hard_faults += 1;
@@ -1692,6 +1714,9 @@ pub fn hook_lseek(fd: i32, off: i64, whence: i32) -> Option<Result<i64, i32>> {
     let _g = enter()?;
     let s = sim();
     let path = s.fds[&fd].path.clone();
+    if s.cfg.pipe_like_paths.iter().any(|p| path.contains(p.as_str())) {
+        return Some(Err(libc::ESPIPE));
+    }
     let flen = s.files.get(&path).map(|f| f.data.len()).unwrap_or(0) as i64;
     let o = s.fds.get_mut(&fd).unwrap();
     let np = match whence {
@@ -1719,6 +1744,7 @@ pub fn hook_stat_path(path: &[u8]) -> Option<Result<(bool, u64), i32>> {
         return Some(Ok((true, 0)));
     }
     match s.files.get(&p) {
+        Some(_) if s.cfg.pipe_like_paths.iter().any(|x| p.contains(x.as_str())) => Some(Ok((false, 0))),
         Some(f) => Some(Ok((false, f.data.len() as u64))),
         None => Some(Err(libc::ENOENT)),
     }
@@ -1731,7 +1757,28 @@ pub fn hook_stat_fd(fd: i32) -> Option<Result<(bool, u64), i32>> {
     let s = sim();
     let path = s.fds[&fd].path.clone();
     let len = s.files.get(&path).map(|f| f.data.len()).unwrap_or(0) as u64;
+    if s.cfg.pipe_like_paths.iter().any(|p| path.contains(p.as_str())) {
+        return Some(Ok((false, 0)));
+    }
     Some(Ok((false, len)))
+}
+
+/// ftruncate on a simulated file
+pub fn hook_ftruncate(fd: i32, len: i64) -> Option<Result<(), i32>> {
+    if !is_sim_fd(fd) {
+        return None;
+    }
+    let g = enter()?;
+    let s = sim();
+    if len < 0 {
+        return Some(Err(libc::EINVAL));
+    }
+    let path = s.fds[&fd].path.clone();
+    if let Some(f) = s.files.get_mut(&path) {
+        f.data.resize(len as usize, 0);
+    }
+    s.ev(g.tid, Pt::Write, u64::MAX, len as u64);
+    Some(Ok(()))
 }
 
 /// stderr/stdout writes of simulated threads are swallowed (progress bars)
